@@ -60,6 +60,14 @@ def r11_dispatch_none(text):
             return text, hits
 
 
+def r_async_flush_wait(text):
+    """FlushWait::from_future(async move { let _ = receiver.await; })  ->  verif_flush_wait(receiver)   (async blocks are outside this Verus)"""
+    import re
+    pat = r"FlushWait::from_future\(async move \{\s*let _ = receiver\.await;\s*\}\)"
+    n = len(re.findall(pat, text))
+    return re.sub(pat, "verif_flush_wait(receiver)", text), n
+
+
 def r12_join_unwrap(text):
     """handle.join().unwrap()  ->  handle.join_unwrap()  (stand-in JoinHandle; panics propagate either way)"""
     hits = text.count("handle.join().unwrap()")
@@ -133,6 +141,9 @@ impl<E> ArrayQueue<E> {
 #[verifier::external_body] #[derive(Clone, Copy)] pub struct Duration { p: u8 }
 pub mod thread {
     use vstd::prelude::*;
+    // std::thread::panicking(): an arbitrary answer (a handle may be dropped during unwinding)
+    #[verifier::external_body]
+    pub fn panicking() -> bool { unimplemented!() }
     #[verifier::external_body]
     #[verifier::reject_recursive_types(T)]
     pub struct JoinHandle<T> { p: core::marker::PhantomData<T> }
@@ -147,11 +158,44 @@ pub mod tokio { pub mod sync { pub mod oneshot {
     #[verifier::external_body]
     #[verifier::reject_recursive_types(T)]
     pub struct Sender<T> { _p: core::marker::PhantomData<T> }
+    #[verifier::external_body]
+    #[verifier::reject_recursive_types(T)]
+    pub struct Receiver<T> { _p: core::marker::PhantomData<T> }
+    // the two halves of one channel: the receiver's future completes when the sender is used or dropped
+    pub uninterp spec fn halves<T>(tx: Sender<T>, rx: Receiver<T>) -> bool;
+    #[verifier::external_body]
+    pub fn channel<T>() -> (r: (Sender<T>, Receiver<T>)) ensures halves(r.0, r.1) { unimplemented!() }
 }}}
 #[verifier::external_type_specification]
 #[verifier::external_body]
 #[verifier::reject_recursive_types(T)]
 pub struct ExSender<T>(std::sync::mpsc::Sender<T>);
+#[verifier::external_type_specification]
+#[verifier::external_body]
+#[verifier::reject_recursive_types(T)]
+pub struct ExSyncSender<T>(std::sync::mpsc::SyncSender<T>);
+#[verifier::external_type_specification]
+#[verifier::external_body]
+#[verifier::reject_recursive_types(T)]
+pub struct ExSendError<T>(std::sync::mpsc::SendError<T>);
+#[verifier::external_type_specification]
+#[verifier::external_body]
+#[verifier::reject_recursive_types(T)]
+pub struct ExTrySendError<T>(std::sync::mpsc::TrySendError<T>);
+// the flush-signal queue: `queued(tx, sig)` = the signal is now in the writer's queue; `writer_gone(tx)` = the receiving end was
+// dropped (the writer has shut down) - the only reason an unbounded send fails; the signal is then dropped, which completes its future
+pub uninterp spec fn queued<S, T>(tx: &S, t: T) -> bool;
+pub uninterp spec fn writer_gone<S>(tx: &S) -> bool;
+pub assume_specification<T>[ std::sync::mpsc::Sender::<T>::send ](tx: &std::sync::mpsc::Sender<T>, t: T) -> (r: Result<(), std::sync::mpsc::SendError<T>>)
+    ensures r is Ok ==> queued(tx, t), r is Err ==> writer_gone(tx);
+// a bounded channel can also refuse because it is full: nothing is known then
+pub assume_specification<T>[ std::sync::mpsc::SyncSender::<T>::try_send ](tx: &std::sync::mpsc::SyncSender<T>, t: T) -> (r: Result<(), std::sync::mpsc::TrySendError<T>>);
+// R-async: FlushWait::from_future(async move { let _ = receiver.await; }) - a future that completes when the paired sender is used or dropped
+#[verifier::external_body]
+pub struct FlushWait { _p: u8 }
+pub uninterp spec fn waits_on(w: FlushWait, rx: tokio::sync::oneshot::Receiver<()>) -> bool;
+#[verifier::external_body]
+pub fn verif_flush_wait(receiver: tokio::sync::oneshot::Receiver<()>) -> (r: FlushWait) ensures waits_on(r, receiver) { unimplemented!() }
 pub enum Ordering { Relaxed }
 
 // Effects of `&self` methods of the dependencies are witnessed by uninterpreted predicates that only the
@@ -314,6 +358,15 @@ ITEMS = [
                     assert(flushes(__s.stream.ops()) == flushes(verif_ops0) + 1);            // OBL shutdown_flushes_once
                  }"""),
          ]),
+    dict(kind="fn", file=BG, impl=r"^impl < E > Inner < E >$", name="flush_async", ret="r", label="Inner::flush_async",
+         rules={"r_async_flush_wait": 1}, extra_rewrites=[r_async_flush_wait],
+         ensures="""
+            // C04: a flush request hands the writer a signal whose completion is exactly what the returned future waits for - unless the
+            // writer has already shut down (then the signal is dropped and the future completes immediately) - and wakes the writer
+            exists|tx: tokio::sync::oneshot::Sender<()>, rx: tokio::sync::oneshot::Receiver<()>| #[trigger] tokio::sync::oneshot::halves(tx, rx) && waits_on(r, rx)
+                && (queued(&self.flush_queue_sender, FlushSignal { channel: tx }) || writer_gone(&self.flush_queue_sender)),   // OBL flush_request_reaches_the_writer
+            unparked(self.unparker),                                                                                                       // OBL flush_request_wakes_the_writer
+         """),
     dict(kind="fn", file=BG, impl=r"^impl < E > Inner < E >$", name="push",
          rules={"R1": 1, "R2": 1}, n_loops=0,
          ensures="""
